@@ -547,10 +547,12 @@ impl Duration {
     /// assert_eq!(two_hours_three_min.floor(1.hours() + 5.minutes()), 1.hours() + 5.minutes());
     /// ```
     pub fn floor(&self, duration: Self) -> Self {
-        Self::from_total_nanoseconds(if duration.total_nanoseconds() == 0 {
+        // Use the Euclidean remainder by the step's magnitude so that negative durations are rounded down too.
+        let step = duration.total_nanoseconds().abs();
+        Self::from_total_nanoseconds(if step == 0 {
             0
         } else {
-            self.total_nanoseconds() - self.total_nanoseconds() % duration.total_nanoseconds()
+            self.total_nanoseconds() - self.total_nanoseconds().rem_euclid(step)
         })
     }
 
